@@ -12,6 +12,7 @@ oracle: central difference quotients of the axial force in the imposed top
         histories, several displacement levels, default and forced sub-increments.
 """
 import copy
+import os
 
 import numpy as np
 
@@ -132,10 +133,26 @@ def run(ctx):
                     msg = "step %d, d=%.6g: reported stiffness %.8g, difference quotient of the force %.8g (%.2g relative)" % (s, d, K, fd, abs(K - fd) / abs(fd))
                 if msg:
                     msg = "%s %dD%s: %s" % (label, c["dim"], " forced sub-increments" if c.get("substep") else "", msg)
-                    if c.get("substep") and inelastic:
-                        known.append((c, msg))
+                    cut = r.get("trial_attempts", {}).get(str(s), [1] * 9)[3 * li + 1] > 1     # the solve at d was cut into sub-increments
+                    if (c.get("substep") or cut) and inelastic:
+                        known.append((c, msg + (" (the step was cut back after a failed Newton solve)" if cut and not c.get("substep") else "")))
                     else:
                         findings.append((c, msg))
+    # corpus: minimised inputs of earlier findings run on every pass (a returned state must carry a finite force and a
+    # positive finite stiffness, whatever the material update did)
+    import glob, json as _json, math as _math, os as _os
+    from harness.core import VERIF, run_impl
+    for path in sorted(glob.glob(_os.path.join(VERIF, "harness", "corpus", "c11_*.json"))):
+        cc = _json.load(open(path))["case"]
+        rr = run_impl("struct_run", {"cases": [cc]}, timeout=1200)["results"][0]
+        ctx.case(("c11-corpus", _os.path.basename(path)), True)
+        ctx.count("corpus")
+        if rr.get("outcome") == "ok":
+            vals = [(uv(a), uv(b)) for tr in rr["trials"].values() for a, b in tr] + list(zip(map(uv, rr["force"][1:]), map(uv, rr["stiffness"][1:])))
+            badv = [(f, k) for f, k in vals if not (_math.isfinite(f) and _math.isfinite(k) and k > 0.0)]
+            if badv:
+                findings.append(({"corpus": _os.path.basename(path), "impl": cc},
+                                 "corpus case %s: a solve returns force %r with stiffness %r" % (_os.path.basename(path), badv[0][0], badv[0][1])))
     # equilibrium certificate for the 1D histories, any material: the stored stresses of every step balance the
     # pressure in the axisymmetric finite-element model (exact arithmetic), the reported force is their integral
     import math
@@ -177,7 +194,8 @@ def run(ctx):
         ctx.violation("%s (%d such quotients)" % (msg, len(known)), {"case": to_impl(c, 0), "oracle": msg}, tag=SUBSTEP_TAG)
     if findings:
         c, msg = findings[0]
-        ctx.violation("%s (%d failing checks)" % (msg, len(findings)), {"case": to_impl(c, 0), "oracle": msg}, tag="C11:" + msg[:30])
+        ctx.violation("%s (%d failing checks)" % (msg, len(findings)), {"case": c["impl"] if "impl" in c else to_impl(c, 0), "oracle": msg},
+                      tag="C11:" + msg[:30])
 
 
 def replay(rp):
